@@ -236,6 +236,22 @@ func (s *Stream) read() bool {
 	return true
 }
 
+// numberGoesOn reports whether the digits just scanned are followed by a fraction or
+// an exponent: the number token is longer than its integer prefix.
+func (s *Stream) numberGoesOn() bool {
+	for {
+		switch s.char() {
+		case '.', 'e', 'E':
+			return true
+		case nul:
+			if s.read() {
+				continue
+			}
+		}
+		return false
+	}
+}
+
 // ReadErr returns the error (other than io.EOF) with which the reader failed, if it did.
 func (s *Stream) ReadErr() error {
 	return s.readErr
